@@ -71,6 +71,11 @@ def cases(tier: str, seed: int) -> list[dict]:
     for et in gm.ET_1D + gm.ET_2D + gm.ET_3D:
         out.append({"kind": "factory", "et": et})
         out.append({"kind": "rank", "et": et})
+    # every tabulated rule requested *by point count* through an element group (Integrate_e(f, n)): the path on which the
+    # weights meet the jacobians, also for the rules with a negative weight that no (element type, MatrixType) pair selects
+    for shape, rules in RULES.items():
+        for n in rules:
+            out.append({"kind": "grouprule", "shape": shape, "n": n, "et": FIRST[shape]})
     rep = 1 if tier == "quick" else 10
     for r in range(rep):
         for et in gm.ET_1D + gm.ET_2D + gm.ET_3D:
@@ -148,7 +153,7 @@ def measured_degree(shape, P, w, seg_axis, upto=12):
 
 
 def run_case(case: dict, ctx: Ctx) -> None:
-    {"rule": run_rule, "factory": run_factory, "mesh": run_mesh, "rank": run_rank}[case["kind"]](case, ctx)
+    {"rule": run_rule, "factory": run_factory, "mesh": run_mesh, "rank": run_rank, "grouprule": run_grouprule}[case["kind"]](case, ctx)
 
 
 def run_rule(case, ctx):
@@ -310,6 +315,50 @@ def run_mesh(case, ctx):
                 nmom += 1
             ctx.check("mesh-moment", worst, 1e-9, key + "/moments", kmax=kmax, moments=nmom)
     ctx.describe(f"mesh/{et}/{mc}", mesh.Ne >= 2, et=et, mesh=mc, Ne=mesh.Ne, measure=measure, moments_checked=nmom, groups=[g.elemType.value for g in groups])
+
+
+def run_grouprule(case, ctx):
+    shape, n, et = case["shape"], case["n"], case["et"]
+    key = f"C07/group-rule/{shape}/n={n}"
+    ctx.default_key = key
+    rng = np.random.default_rng([case["seed"], NUM, case["index"]])
+    dim = DIM[shape]
+    with ctx.monitored("no-exception", key + "/raised"):
+        with quiet():
+            if dim == 1:
+                L, x0 = float(rng.uniform(0.5, 3)), float(rng.uniform(-1, 1))
+                mesh = gm.mesh1d(et, L, int(rng.integers(2, 6)), p0=(x0, 0, 0))
+            else:
+                # rectangles: straight-sided triangles / tetrahedra / prisms are affine anyway, quadrangles and hexahedra
+                # of an organised rectangle mesh are parallelograms, so the rule's degree is the element's degree
+                Lx, Ly, h = float(rng.uniform(1, 2)), float(rng.uniform(1, 2)), float(rng.uniform(0.5, 1.2))
+                rect = np.array([[0, 0], [Lx, 0], [Lx, Ly], [0, Ly]], float)
+                ms = Lx / int(rng.integers(2, 4))
+                mesh = gm.mesh2d(rect, et, ms, organised=True) if dim == 2 else gm.mesh3d(rect, et, h, int(rng.integers(1, 3)), ms, organised=True)
+    deg = RULES[shape][n]
+    kmax = min(deg) if isinstance(deg, tuple) else deg
+    groups = mesh.Get_list_groupElem(dim)
+    worst, nmom = 0.0, 0
+    for pw in itertools.product(range(kmax + 1), repeat=dim):
+        k = sum(pw)
+        if k > kmax:
+            continue
+        if dim == 1:
+            want = ((x0 + L) ** (pw[0] + 1) - x0 ** (pw[0] + 1)) / (pw[0] + 1)
+            size = L
+        else:
+            want = Lx ** (pw[0] + 1) / (pw[0] + 1) * Ly ** (pw[1] + 1) / (pw[1] + 1)
+            size = Lx * Ly
+            if dim == 3:
+                want *= h ** (pw[2] + 1) / (pw[2] + 1)
+                size *= h
+        pwf = tuple(pw) + (0,) * (3 - dim)
+        with ctx.monitored("no-exception", key + "/raised"):
+            got = float(sum(np.asarray(g.Integrate_e(lambda x, y, z, p=pwf: x ** p[0] * y ** p[1] * z ** p[2], n)).sum() for g in groups))
+        worst = max(worst, abs(got - want) / (size * max(np.abs(mesh.coord).max(), 1.0) ** k))
+        nmom += 1
+    ctx.check("group-rule-exactness", worst, 1e-10, key, degree=kmax, moments=nmom, et=et)
+    ctx.describe(f"group-rule/{shape}/{n}", mesh.Ne >= 2, shape=shape, n=n, et=et, Ne=mesh.Ne, degree=kmax)
 
 
 def run_rank(case, ctx):
